@@ -2,41 +2,68 @@
 C09  Snapshot catalog stays well-formed and full-needed is honoured.
 
 Model: RqModel/Model/SnapCat.lean (snapshot/store.go Create/List/DueNext/SetDueNext/NewStore,
-snapshot/sink.go Open/Write/Close/Cancel as of the `fix:` commit 32ed8a9, sink_full.go) over the
+snapshot/sink.go Open/Write/Close/Cancel as of the `fix:` commits 32ed8a9 and 352e039, sink_full.go) over the
 directory model RqModel/Model/SnapFS.lean. Lemmas: RqModel/Lemmas/SnapCat.lean.
 
 Operation sequences are arbitrary lists of `COp` (create, full payload {complete, short, bad CRC},
 incremental payload, close, close with a failing final rename, cancel, SetDueNext(Full), reopen,
 crash at any of the four points inside Close) subject to `OpOK`: one sink open at a time, created
 with a fresh name and a (term, index) not below any listed snapshot, incremental payloads carry at
-least one WAL file. Reap is covered by C07 (its effect on a well-formed store is proved there).
+least one WAL file without duplicates; reap (run to completion; crashes inside it are C07) with no
+sink open and a fresh name (`OpOK'`). Lemmas/SnapCatReap.lean bridges the catalog invariant to C07's
+well-formedness `WF`, so reap is part of the induction.
 -/
-import RqModel.Lemmas.SnapCat
+import RqModel.Lemmas.SnapCatReap
 import RqModel.Gen.SinkShape
 namespace C09
 open RqModel.SnapFS RqModel.SnapCat
 
 variable {D : Type}
 
-/-- After any admissible operation sequence on an empty store — including sinks that fail, are
-cancelled, or are cut by a crash inside Close, and restarts —: listing succeeds and shows only
-directories that completed the final rename (`Listed`: not temporary, meta.json naming the
-directory, a database with matching CRC or at least one WAL file), and every listed incremental
-has a listed full snapshot at or before it in (term, index, name) order, i.e. resolves to one
-full database followed by WAL segments. -/
-theorem catalog_inv (A : DbAlg D) (ops : List (COp D)) (hok : OpsOK A {} ops) :
+/-- After any admissible operation sequence on an empty store — sinks that complete, fail, are
+cancelled, or are cut by a crash inside Close, restarts, SetDueNext(Full) AND reaps (consolidating,
+remove-only or with nothing to do) —: listing succeeds and shows only directories that completed
+the final rename (`Listed`: not temporary, meta.json naming the directory, a database with matching
+CRC or at least one WAL file), and every listed incremental has a listed full snapshot at or
+before it in (term, index, name) order. -/
+theorem catalog_inv (A : DbAlg D) (laws : DbLaws A) (ops : List (COp D)) (hok : OpsOK' A {} ops) :
     let s := runOps A {} ops
     (∃ xs, scan s.fs = .ok xs ∧ ∀ x ∈ xs, Listed s.fs x) ∧
     (∀ n d, Live s.fs n d → d.db = none →
       ∃ n' d', Live s.fs n' d' ∧ d'.db.isSome ∧ keyLe (keyOf n' d') (keyOf n d)) := by
-  have hinv := runOps_inv A ops {} catInv_empty hok
+  have hinv := (runOps_inv' A laws ops {} catInv_empty fsInv_empty hok).1
   exact ⟨scan_ok hinv, hinv.based⟩
 
-/-- Close never installs an incremental snapshot while a full one is required, whenever the
-requirement was raised (before or after the header was accepted). -/
+/-- … the listing is sorted oldest first by (term, index, name), without duplicate names
+(List() returns its reverse: newest first) … -/
+theorem list_sorted (A : DbAlg D) (laws : DbLaws A) (ops : List (COp D)) (hok : OpsOK' A {} ops)
+    (xs : List (Snap D)) (h : scan (runOps A {} ops).fs = .ok xs) :
+    xs.Pairwise (fun a b => keyLe (snapKey a) (snapKey b)) ∧ (xs.map (·.name)).Nodup :=
+  ⟨scan_sorted h, (scan_names (runOps_inv' A laws ops {} catInv_empty fsInv_empty hok).2 h).1⟩
+
+/-- … and EVERY listed snapshot resolves: walking back from it through the sorted listing reaches a
+full snapshot, so ResolveFiles returns one database file followed by the WAL files of the
+incrementals after it, in listing order (`resolveRev`). -/
+theorem listed_resolves (A : DbAlg D) (laws : DbLaws A) (ops : List (COp D)) (hok : OpsOK' A {} ops)
+    (xs : List (Snap D)) (h : scan (runOps A {} ops).fs = .ok xs) (i : Nat) (hi : i < xs.length) :
+    (resolveRev (xs.take (i + 1)).reverse).isSome := by
+  have hinv := runOps_inv' A laws ops {} catInv_empty fsInv_empty hok
+  exact RqModel.SnapCat.listed_resolves hinv.1 hinv.2 h i hi
+
+/-- The catalog invariant gives exactly the hypotheses under which C07 proves reap crash-safe:
+before any reap inside an admissible sequence the store is well-formed in C07's sense. -/
+theorem reap_precondition_from_invariant (A : DbAlg D) (laws : DbLaws A) (ops : List (COp D)) (hok : OpsOK' A {} ops)
+    (nn : Nat) (hreap : OpOK' (runOps A {} ops) (.reap nn)) (xs o : List (Snap D)) (f : Snap D) (n : List (Snap D))
+    (hscan : scan (runOps A {} ops).fs = .ok xs) (hsplit : splitLastFull xs = some (o, f, n)) :
+    ∃ d0 dw0, WF (reapCtx A (runOps A {} ops) o f n d0 nn) (runOps A {} ops).fs dw0 := by
+  have hinv := runOps_inv' A laws ops {} catInv_empty fsInv_empty hok
+  exact wf_of_inv A laws hinv.1 hinv.2 hscan hsplit nn hreap.2.1 hreap.2.2
+
+/-- Close never installs an incremental snapshot while a full one is due (FULL_NEEDED set or the
+store empty), whenever that came about (before or after the header was accepted). -/
 theorem no_incremental_while_full_needed (s : CS D) (h : Nat) (k : Sink D) (wals : List Nat)
     (hk : getSink s h = some k) (ho : k.opened = true) (hi : k.hdr = .inc wals)
-    (hok : (close true s h).2 = "ok") : s.fs.fullNeeded = false :=
+    (hok : (close 2 s h).2 = "ok") : fullDue s.fs = false :=
   close_inc_needs_no_full s h k wals hk hi hok ho
 
 /-- … and the header Write refuses it in the first place. -/
@@ -46,40 +73,75 @@ theorem incremental_header_refused_when_full_due (s : CS D) (h : Nat) (k : Sink 
   simp [writeInc, hk, hh, hf]
 
 /-- The requirement is cleared only by a Close that returned success (which installs a snapshot):
-no other operation, no failed or cancelled sink, no crash, reap or restart clears it. -/
+no other operation, no failed or cancelled sink, no crash, reap or restart clears it … -/
 theorem full_needed_cleared_only_by_install (A : DbAlg D) (s : CS D) (op : COp D)
     (h1 : s.fs.fullNeeded = true) (h2 : (stepOp A s op).1.fs.fullNeeded = false) :
     ∃ h, op = .close h ∧ (stepOp A s op).2 = "ok" :=
   fullNeeded_cleared_only_by_close A s op h1 h2
 
-/-- The defect repaired by 32ed8a9, on Close as it was (no re-check): create; full; close;
-create; incremental header accepted; SetDueNext(Full); close ⇒ the incremental is installed and
-the requirement cleared. -/
-def witnessOps : CS (List Nat) :=
+/-- … an incremental snapshot never clears it … -/
+theorem incremental_never_clears_requirement (s : CS D) (h : Nat) (k : Sink D) (wals : List Nat)
+    (hk : getSink s h = some k) (hi : k.hdr = .inc wals) (ho : k.opened = true) :
+    (close 2 s h).1.fs.fullNeeded = s.fs.fullNeeded :=
+  close_inc_keeps_requirement s h k wals hk hi ho
+
+/-- … and a full snapshot clears only the requirement that was in force when its sink was
+created: one raised afterwards (a load applied while the snapshot is being persisted) survives. -/
+theorem requirement_raised_after_capture_survives (s : CS D) (h : Nat) (k : Sink D)
+    (hk : getSink s h = some k) (ho : k.opened = true) (hf : s.fs.fullNeeded = true)
+    (hlater : k.tok ≠ some s.fnGen) : (close 2 s h).1.fs.fullNeeded = true :=
+  close_full_keeps_later_requirement s h k hk ho hf hlater
+
+/-! ### the defects repaired in /repo, as checked counterexamples on the older code levels -/
+
+/-- 32ed8a9 (level 0 → 1): create; full; close; create; incremental header accepted;
+SetDueNext(Full); close ⇒ the incremental is installed and the requirement cleared. -/
+def witnessInc : CS (List Nat) :=
   let s := create {} 1 1 10 1
   let s := (writeFull s 1 [1] [] .ok).1
-  let s := (close true s 1).1
+  let s := (close 2 s 1).1
   let s := create s 2 2 20 1
   let s := (writeInc s 2 [2]).1
   setFull s
 
 theorem close_before_fix_witness :
-    witnessOps.fs.fullNeeded = true ∧
-    (close false witnessOps 2).2 = "ok" ∧ (close false witnessOps 2).1.fs.fullNeeded = false ∧
-    ((close false witnessOps 2).1.fs.dir 2).isSome = true ∧
-    (close true witnessOps 2).2 = "err full-needed" ∧ (close true witnessOps 2).1.fs.fullNeeded = true := by
+    witnessInc.fs.fullNeeded = true ∧
+    (close 0 witnessInc 2).2 = "ok" ∧ (close 0 witnessInc 2).1.fs.fullNeeded = false ∧
+    ((close 0 witnessInc 2).1.fs.dir 2).isSome = true ∧
+    (close 2 witnessInc 2).2 = "err full-needed" ∧ (close 2 witnessInc 2).1.fs.fullNeeded = true := by
+  decide
+
+/-- 352e039 (level 1 → 2): a full snapshot whose sink was created before the requirement was
+raised (the content is older than the requirement) still cleared it when installed. -/
+def witnessFull : CS (List Nat) :=
+  let s := create {} 1 1 10 1
+  let s := (writeFull s 1 [1] [] .ok).1
+  setFull s
+
+theorem full_close_cleared_later_requirement_witness :
+    witnessFull.fs.fullNeeded = true ∧
+    (close 1 witnessFull 1).2 = "ok" ∧ (close 1 witnessFull 1).1.fs.fullNeeded = false ∧
+    (close 2 witnessFull 1).2 = "ok" ∧ (close 2 witnessFull 1).1.fs.fullNeeded = true := by
   decide
 
 /-! ### tie to the source (regenerated on every run) -/
 
 /-- Close re-examines the requirement before consuming anything, clears it only after the final
-rename, and the crash cuts of the model follow the source order of its steps; Write refuses an
-incremental header while a full snapshot is due. -/
+rename — for a full snapshot carrying a token only, by compare-and-clear under the store's lock —,
+and the crash cuts of the model follow the source order of its steps; Write refuses an incremental
+header while a full snapshot is due. -/
 theorem sink_shape_from_source :
     RqModel.Gen.SinkShape.closeSteps =
       ["recheck-DueNext", "rename-waldir-into-tmp", "move-wal-files", "fullsink-close", "write-meta",
-       "rename-tmp-to-final", "clear-full-needed"] ∧
-    RqModel.Gen.SinkShape.writeGateRefusesIncrementalWhenFullDue = some true := by decide
+       "rename-tmp-to-final", "clear-captured-requirement"] ∧
+    RqModel.Gen.SinkShape.writeGateRefusesIncrementalWhenFullDue = some true ∧
+    RqModel.Gen.SinkShape.clearGuard = "s.stc != nil && s.localWALDir == \"\" && s.hasFullNeededToken" ∧
+    RqModel.Gen.SinkShape.clearComparesToken = true ∧
+    RqModel.Gen.SinkShape.requirementChangesSerialized = true := by decide
+
+/-- `COp` enumerates every mutator of FULL_NEEDED: in the non-test sources nothing calls
+SetDueNext with an argument other than Full; the only way down is the sink's compare-and-clear. -/
+theorem requirement_mutators_pinned : RqModel.Gen.SinkShape.setDueNextNonFullCallers = [] := by decide
 
 /-! ### non-vacuity: an admissible sequence with a failed sink, an incremental and a crash -/
 
@@ -117,6 +179,19 @@ example : OpsOK exAlg {} exOK := by
       simp [keyOf, keyLe]
     · cases h1
   · show ([2] : List Nat) ≠ []; simp
+
+
+/-! ### non-vacuity of the reap-admitting side conditions -/
+
+def exA9 : DbAlg Nat := ⟨fun d w => max d w⟩
+theorem exLaws9 : DbLaws exA9 := ⟨fun d w => by simp [exA9], fun d => by simp [exA9]⟩
+def exOK9 : List (COp Nat) :=
+  [.create 1 1 10 1, .wfull 1 5 [] .ok, .close 1, .create 2 2 20 1, .winc 2 [7], .setFull, .close 2, .cancel 2,
+   .create 3 3 30 1, .wfull 3 6 [] .ok, .crashClose 3 .renamed, .reopen,
+   .create 4 4 40 2, .winc 4 [8, 9], .close 4, .reap 50]
+/-- the side conditions of `catalog_inv` (with a refused incremental, a crash inside Close, a restart and a
+consolidating reap) are satisfiable -/
+example : OpsOK' exA9 {} exOK9 := opsOKB_sound exA9 exLaws9 _ _ catInv_empty fsInv_empty (by decide)
 
 
 end C09
